@@ -151,21 +151,22 @@ Print Assumptions C35_reference_priority_list_sorted.
 
 (* timed-out operations have no effect, spelled out on the reference (to which
    the implementation is observationally equal): a put / get that has to wait
-   and whose timer then fires leaves items, both waiter queues and the
-   unfinished count exactly as they were, and its future reports TimeoutError.
+   and whose timer then fires -- a deadline reached at [Expire], or a zero
+   timeout fired by the next run of the loop -- leaves items, both waiter queues
+   and the unfinished count exactly as a plain run of the loop would have left
+   them (qpart t2 = qpart (s_drain t)), and its future reports TimeoutError.
    The two Forall premises (waiter ids are existing futures) hold in every
    reachable state: C35_reachable_waiter_ids_exist. *)
 Theorem C35_timed_out_put_has_no_effect :
-  forall kd m x t,
+  forall kd m t,
     Forall (fun g => gkey g < length (sfuts t)) (sgetters t) ->
     Forall (fun p => pkey p < length (sfuts t)) (sputters t) ->
-    s_put_now kd m x t = (RFull, t) ->
+    forall x, s_put_now kd m x t = (RFull, t) ->
     let k := length (sfuts t) in
-    let t1 := snd (sstep kd m (Put x true) t) in
+    let t1 := snd (sstep kd m (Put x TTimer) t) in
     let t2 := snd (sstep kd m (Expire k) t1) in
-    fst (sstep kd m (Put x true) t) = RFut k /\ stat (sfuts t1) k = Some Pending /\
-    sq t2 = sq t /\ sgetters t2 = sgetters t /\ sputters t2 = sputters t /\ sunf t2 = sunf t /\
-    stat (sfuts t2) k = Some TimedOut.
+    fst (sstep kd m (Put x TTimer) t) = RFut k /\ stat (sfuts t1) k = Some Pending /\
+    qpart t2 = qpart (s_drain t) /\ stat (sfuts t2) k = Some TimedOut.
 Proof. exact timed_out_put_no_effect. Qed.
 Print Assumptions C35_timed_out_put_has_no_effect.
 
@@ -175,13 +176,70 @@ Theorem C35_timed_out_get_has_no_effect :
     Forall (fun p => pkey p < length (sfuts t)) (sputters t) ->
     s_get_now kd t = (REmpty, t) ->
     let k := length (sfuts t) in
-    let t1 := snd (sstep kd m (Get true) t) in
+    let t1 := snd (sstep kd m (Get TTimer) t) in
     let t2 := snd (sstep kd m (Expire k) t1) in
-    fst (sstep kd m (Get true) t) = RFut k /\ stat (sfuts t1) k = Some Pending /\
-    sq t2 = sq t /\ sgetters t2 = sgetters t /\ sputters t2 = sputters t /\ sunf t2 = sunf t /\
-    stat (sfuts t2) k = Some TimedOut.
+    fst (sstep kd m (Get TTimer) t) = RFut k /\ stat (sfuts t1) k = Some Pending /\
+    qpart t2 = qpart (s_drain t) /\ stat (sfuts t2) k = Some TimedOut.
 Proof. exact timed_out_get_no_effect. Qed.
 Print Assumptions C35_timed_out_get_has_no_effect.
+
+(* the same for timeout=0 / 0.0 / timedelta(0): the operation that has to wait
+   raises TimeoutError as soon as the loop runs and leaves no trace *)
+Theorem C35_zero_timeout_put_has_no_effect :
+  forall kd m t,
+    Forall (fun g => gkey g < length (sfuts t)) (sgetters t) ->
+    Forall (fun p => pkey p < length (sfuts t)) (sputters t) ->
+    forall x, s_put_now kd m x t = (RFull, t) ->
+    let k := length (sfuts t) in
+    let t1 := snd (sstep kd m (Put x TZero) t) in
+    let t2 := snd (sstep kd m Drain t1) in
+    fst (sstep kd m (Put x TZero) t) = RFut k /\ stat (sfuts t1) k = Some Pending /\
+    qpart t2 = qpart (s_drain t) /\ stat (sfuts t2) k = Some TimedOut.
+Proof. exact zero_timeout_put_no_effect. Qed.
+Print Assumptions C35_zero_timeout_put_has_no_effect.
+
+Theorem C35_zero_timeout_get_has_no_effect :
+  forall kd m t,
+    Forall (fun g => gkey g < length (sfuts t)) (sgetters t) ->
+    Forall (fun p => pkey p < length (sfuts t)) (sputters t) ->
+    s_get_now kd t = (REmpty, t) ->
+    let k := length (sfuts t) in
+    let t1 := snd (sstep kd m (Get TZero) t) in
+    let t2 := snd (sstep kd m Drain t1) in
+    fst (sstep kd m (Get TZero) t) = RFut k /\ stat (sfuts t1) k = Some Pending /\
+    qpart t2 = qpart (s_drain t) /\ stat (sfuts t2) k = Some TimedOut.
+Proof. exact zero_timeout_get_no_effect. Qed.
+Print Assumptions C35_zero_timeout_get_has_no_effect.
+
+(* "a timeout of zero will either return or raise immediately": in the
+   implementation model, after any schedule, once the loop has run (Drain, or the
+   run that fires a timer) no future created with a zero timeout -- by put, get
+   or join -- is still pending *)
+Theorem C35_zero_timeout_settled_by_next_loop_run :
+  forall kd m ops o k f,
+    o = Drain \/ (exists j, o = Expire j) ->
+    let s := ireach kd m (ops ++ [o]) in
+    nth_error (ifuts s) k = Some f -> is_zero (ftmo f) = true ->
+    fstat f <> Pending /\ fstat f <> Ready.
+Proof. exact zero_timeout_settled_by_loop. Qed.
+Print Assumptions C35_zero_timeout_settled_by_next_loop_run.
+
+(* async iteration (__aiter__/__anext__) is get() without a timeout, so every theorem above covers it *)
+Theorem C35_async_iteration_is_get : forall kd m s, istep kd m Next s = istep kd m (Get TNone) s.
+Proof. exact next_is_get. Qed.
+Print Assumptions C35_async_iteration_is_get.
+
+(* Queue(maxsize): accepted exactly for non-negative integers (None -> TypeError, negative -> ValueError) *)
+Theorem C35_constructor_accepts_nonnegative :
+  forall a m, ctor a = COk m <-> exists z, a = MInt z /\ (0 <= z)%Z /\ m = Z.to_nat z.
+Proof. exact ctor_ok. Qed.
+Print Assumptions C35_constructor_accepts_nonnegative.
+
+Theorem C35_constructor_rejections :
+  forall a, (ctor a = CTypeError <-> a = MNone) /\
+            (ctor a = CValueError <-> exists z, a = MInt z /\ (z < 0)%Z).
+Proof. exact ctor_rejects. Qed.
+Print Assumptions C35_constructor_rejections.
 
 Theorem C35_reachable_waiter_ids_exist :
   forall kd m ops,
